@@ -471,7 +471,26 @@ def standard_check(mod, tier, seed):
     ncorpus = len(lines)
     lines += mod.cases(tier, rng)
     shards = NCPU if tier == "thorough" or len(lines) > 2000 else min(NCPU, 8)
-    impl_out = run_lines(impl_exe, lines, shards) if impl_ok else [None] * len(lines)
+    impl_lines = lines
+    if not impl_ok and hasattr(mod, "public_line"):
+        # the hook files no longer compile against the edited tree: fall back to the public API only
+        # (harness built WITHOUT the verif tag from main.go util.go all.go) for the cases that have a
+        # public equivalent, so that a concrete failing input can still be found
+        try:
+            with Lock("impl_pub"):
+                rc, out = sh(["go", "build", "-o", os.path.join(BUILD, "impl_pub"), "main.go", "util.go", "all.go"],
+                             cwd=os.path.join(VERIF, "go", "impl"), env=GOENV, timeout=900)
+            if rc == 0:
+                keep = [(l, mod.public_line(l)) for l in lines]
+                keep = [(l, p) for l, p in keep if p]
+                lines = [l for l, p in keep]
+                impl_lines = [p for l, p in keep]
+                impl_exe = os.path.join(BUILD, "impl_pub")
+                impl_ok = True
+                rep.notes.append("hooks do not compile: fell back to the public API for %d cases" % len(lines))
+        except Exception:
+            pass
+    impl_out = run_lines(impl_exe, impl_lines, shards) if impl_ok else [None] * len(lines)
     model_out = run_lines(model_exe, lines, shards) if model_ok else [None] * len(lines)
     compare = getattr(mod, "compare", lambda a, b: a == b)
     mism = [i for i in range(len(lines)) if impl_ok and model_ok and not compare(impl_out[i], model_out[i])]
